@@ -99,6 +99,10 @@ def main(argv=None):
         specs = [spec]
     else:
         specs = mod.shards(a.tier, seed)
+        if getattr(mod, "MESH", None):
+            # system-level shards: the shared mesh workload (pv/mesh.py) under this property's boundary monitors
+            from pv import mesh
+            specs = list(specs) + mesh.shard_specs(mod.MESH, a.tier, seed)
     shard_timeout = getattr(mod, "SHARD_TIMEOUT", {}).get(a.tier, 1500 if a.tier == "quick" else 7200)
     variants = getattr(mod, "TIEBREAK_VARIANTS", False) and a.tier == "thorough" and not a.replay
     for k, s in enumerate(specs):
@@ -196,7 +200,10 @@ def main(argv=None):
     coverage = dict(
         evaluations=evaluations,
         distinct_nontrivial=len(distinct),
-        rule=getattr(mod, "RULE", ""),
+        rule=getattr(mod, "RULE", "") + ((" + system-level shards (pv/mesh.py): seeded scenarios of 2-4 complete SD stacks on one simulated network, each "
+                                          "offering / watching / auto-subscribing, with graceful stop/start, crash/restart, watch / unwatch, announce / "
+                                          "withdraw and loss / duplication / reordering windows, observed by this property's boundary monitors "
+                                          + repr(tuple(mod.MESH["want"])) + " (counters mesh_*)") if getattr(mod, "MESH", None) else ""),
         samples=samples,
         exhaustive=bool(getattr(mod, "EXHAUSTIVE", False)) and not inconclusive,
         monitor_counters=dict(sorted(counters.items())),
